@@ -168,7 +168,7 @@ func (a *Acc) Mismatch(rec interface{}) {
 	a.mu.Lock()
 	defer a.mu.Unlock()
 	a.R.Mismatch++
-	if a.mf != nil && a.R.Mismatch <= 20000 {
+	if a.mf != nil && a.R.Mismatch <= 60000 {
 		b, _ := json.Marshal(rec)
 		a.mf.Write(append(b, '\n'))
 	}
